@@ -97,22 +97,60 @@ func c09(c *Ctx) {
 		if fFlags == nil || fTS == nil || fTID == nil || fSID == nil {
 			c.Missing("R2", "trace.SpanContextConfig fields")
 		} else {
-			flagStores := g.Match(func(n ast.Node) bool {
-				return assignRHS(n, func(e ast.Expr) bool { return isField(info, e, fFlags) }) != nil
-			})
-			form := func(x *GNode) string {
-				r := assignRHS(x.N, func(e ast.Expr) bool { return isField(info, e, fFlags) })
-				be, ok := unparen(r).(*ast.BinaryExpr)
-				if !ok {
+			// the values stored into SpanContextConfig.TraceFlags: assignments to the field and keyed composite literals
+			type flagStore struct {
+				x *GNode
+				v ast.Expr
+			}
+			var flagStores []flagStore
+			for _, x := range g.Nodes {
+				if x.N == nil {
+					continue
+				}
+				if r := assignRHS(x.N, func(e ast.Expr) bool { return isField(info, e, fFlags) }); r != nil {
+					flagStores = append(flagStores, flagStore{x, r})
+					continue
+				}
+				inspectNoLit(x.N, func(n ast.Node) bool {
+					cl, ok := n.(*ast.CompositeLit)
+					if !ok {
+						return true
+					}
+					for _, el := range cl.Elts {
+						if kv, ok := el.(*ast.KeyValueExpr); ok {
+							if id, _ := kv.Key.(*ast.Ident); id != nil && info.Uses[id] == types.Object(fFlags) {
+								flagStores = append(flagStores, flagStore{x, kv.Value})
+							}
+						}
+					}
+					return true
+				})
+			}
+			isSampledConst := func(e ast.Expr) bool {
+				k := constObj(info, e)
+				return k != nil && k.Name() == "FlagsSampled" && k.Pkg().Path() == otelTrace
+			}
+			parentFlags := func(e ast.Expr) bool {
+				call, ok := unparen(e).(*ast.CallExpr)
+				return ok && isCallTo(info, call, "("+otelTrace+".SpanContext).TraceFlags")
+			}
+			form := func(v ast.Expr, env Env) string {
+				v = unparen(v)
+				if call, ok := v.(*ast.CallExpr); ok && isCallTo(info, call, "("+otelTrace+".TraceFlags).WithSampled") && len(call.Args) == 1 {
+					// parent flags with the sampled bit set or cleared according to the argument
+					if recv, _ := methodCall(info, call); recv != nil && parentFlags(recv) {
+						if b, known := evalConst(info, call.Args[0], g.withLocals(env)); known && b.Kind() == constant.Bool {
+							if constant.BoolVal(b) {
+								return "set"
+							}
+							return "clear"
+						}
+					}
 					return "other"
 				}
-				isSampledConst := func(e ast.Expr) bool {
-					k := constObj(info, e)
-					return k != nil && k.Name() == "FlagsSampled" && k.Pkg().Path() == otelTrace
-				}
-				parentFlags := func(e ast.Expr) bool {
-					call, ok := unparen(e).(*ast.CallExpr)
-					return ok && isCallTo(info, call, "("+otelTrace+".SpanContext).TraceFlags")
+				be, ok := v.(*ast.BinaryExpr)
+				if !ok {
+					return "other"
 				}
 				switch {
 				case be.Op == token.OR && ((isSampledConst(be.Y) && parentFlags(be.X)) || (isSampledConst(be.X) && parentFlags(be.Y))):
@@ -134,9 +172,9 @@ func c09(c *Ctx) {
 				}
 				seen := g.ReachUnder(env)
 				var forms []string
-				for _, x := range flagStores {
-					if seen[x] {
-						forms = append(forms, form(x))
+				for _, fs := range flagStores {
+					if seen[fs.x] {
+						forms = append(forms, form(fs.v, env))
 					}
 				}
 				sort.Strings(forms)
@@ -230,13 +268,22 @@ func c09(c *Ctx) {
 				return ok && isCallTo(info, call, gen+"NewSpanID")
 			}
 			tidVar, sidVar := objOf(info, tidSrc), objOf(info, sidSrc)
+			// the parent's trace id: psc.TraceID(), possibly held in a local with that single definition
+			isParentTID := func(e ast.Expr) bool {
+				e = unparen(e)
+				if id, ok := e.(*ast.Ident); ok {
+					if def := g.LocalDef(info.Uses[id]); def != nil {
+						e = unparen(def)
+					}
+				}
+				rc, ok := e.(*ast.CallExpr)
+				return ok && isCallTo(info, rc, "("+otelTrace+".SpanContext).TraceID")
+			}
 			for _, valid := range []bool{true, false} {
 				env := func(e ast.Expr) (constant.Value, bool) {
 					if call, ok := e.(*ast.CallExpr); ok && isCallTo(info, call, "("+otelTrace+".TraceID).IsValid") {
-						if recv, _ := methodCall(info, call); recv != nil {
-							if rc, ok := unparen(recv).(*ast.CallExpr); ok && isCallTo(info, rc, "("+otelTrace+".SpanContext).TraceID") {
-								return constant.MakeBool(valid), true
-							}
+						if recv, _ := methodCall(info, call); recv != nil && isParentTID(recv) {
+							return constant.MakeBool(valid), true
 						}
 					}
 					return nil, false
@@ -260,7 +307,7 @@ func c09(c *Ctx) {
 					if isAs && tidVar != nil {
 						for i, l := range as.Lhs {
 							if sameVar(info, l, tidVar) && len(as.Lhs) == len(as.Rhs) {
-								if call, ok := unparen(as.Rhs[i]).(*ast.CallExpr); ok && isCallTo(info, call, "("+otelTrace+".SpanContext).TraceID") {
+								if isParentTID(as.Rhs[i]) {
 									tidFromParent = true
 								} else {
 									other = true
@@ -321,6 +368,8 @@ func c09(c *Ctx) {
 					continue
 				}
 				recv, _ := methodCall(info, call)
+				// a sampler chosen into a local first (switch / if-chain assigning `delegate`) is resolved under the row's facts
+				recv = g.ResolveUnder(env, seen, recv, x)
 				got = append(got, chainAfter(info, recv, fn.Recv()))
 			}
 			sort.Strings(got)
@@ -441,6 +490,9 @@ func c09(c *Ctx) {
 						continue
 					}
 					d := compositeField(info, rs.Results[0], fDec)
+					if d != nil {
+						d = g.ResolveUnder(env, seen, d, x)
+					}
 					k := constObj(info, d)
 					want := "Drop"
 					if pol {
@@ -576,27 +628,9 @@ func c09(c *Ctx) {
 				continue
 			}
 			for i, res := range rs.Results {
-				v := objOf(info, res)
 				key := "sdk/trace|" + name + "|result " + itoa(i) + " validated"
-				if v == nil {
-					c.Undecided("R5", key, at(ix.M, rs.Pos()), "returned id is not a variable")
-					continue
-				}
-				ok, why := g.DominatedByEdges(x, func(e *GEdge) bool {
-					return edgeImplies(e, func(cnd ast.Expr, pol int) bool {
-						call, isCall := cnd.(*ast.CallExpr)
-						if !isCall || pol < 0 {
-							return false
-						}
-						f := callee(info, call)
-						if f == nil || f.Name() != "IsValid" {
-							return false
-						}
-						recv, _ := methodCall(info, call)
-						return sameVar(info, recv, v)
-					})
-				})
-				c.Check(ok, "R5", key, at(ix.M, rs.Pos()), "return dominated by "+v.Name()+".IsValid()", "an all-zero (invalid) id can be returned: "+why)
+				ok, why := validIDResult(ix, fn, res, x, 2)
+				c.Check(ok, "R5", key, at(ix.M, rs.Pos()), "returned only after IsValid() (here or in the helper that produced it)", "an all-zero (invalid) id can be returned: "+why)
 			}
 		}
 	}
@@ -671,7 +705,7 @@ func c09(c *Ctx) {
 	}
 
 	// R7 tracestate from the parent in every stock sampler result
-	c.Rule("R7", "E4 provenance", "every SamplingResult built by a stock sampler takes Tracestate from the parent span context", 4)
+	c.Rule("R7", "E4 provenance", "every SamplingResult built by a stock sampler takes Tracestate from the parent span context", 3)
 	fRT := lookupField(ix.Pkg, "SamplingResult", "Tracestate")
 	fPC := lookupField(ix.Pkg, "SamplingParameters", "ParentContext")
 	cnt := map[string]int{}
@@ -736,4 +770,69 @@ func constFloat(info *types.Info, e ast.Expr) (float64, bool) {
 	}
 	f, _ := constant.Float64Val(v)
 	return f, true
+}
+
+// validIDResult: is the id returned at vertex x valid on every path? Either the returned variable passed v.IsValid() (the
+// return is dominated by that edge), or the value comes — directly, or through a local with that single definition — from a
+// declared function of the package all of whose returns satisfy the same (depth levels).
+func validIDResult(ix *PkgIndex, fn *FuncInfo, res ast.Expr, x *GNode, depth int) (bool, string) {
+	info := ix.Pkg.TypesInfo
+	g := ix.FG(fn)
+	res = unparen(res)
+	viaHelper := func(e ast.Expr) (bool, string, bool) {
+		call, ok := unparen(e).(*ast.CallExpr)
+		if !ok || depth <= 0 {
+			return false, "", false
+		}
+		h := ix.declByObj(callee(info, call))
+		if h == nil || h == fn {
+			return false, "", false
+		}
+		hg := ix.FG(h)
+		n := 0
+		for _, y := range hg.Nodes {
+			rs, isRet := y.N.(*ast.ReturnStmt)
+			if !isRet {
+				continue
+			}
+			if len(rs.Results) != 1 {
+				return false, h.Name + " returns several values", true
+			}
+			n++
+			if ok, why := validIDResult(ix, h, rs.Results[0], y, depth-1); !ok {
+				return false, "in " + h.Name + ": " + why, true
+			}
+		}
+		return n > 0, "", true
+	}
+	if ok, why, is := viaHelper(res); is {
+		return ok, why
+	}
+	v := objOf(info, res)
+	if v == nil {
+		return false, "returned id is neither a variable nor a call of a package function"
+	}
+	ok, why := g.DominatedByEdges(x, func(e *GEdge) bool {
+		return edgeImplies(e, func(cnd ast.Expr, pol int) bool {
+			call, isCall := cnd.(*ast.CallExpr)
+			if !isCall || pol < 0 {
+				return false
+			}
+			f := callee(info, call)
+			if f == nil || f.Name() != "IsValid" {
+				return false
+			}
+			recv, _ := methodCall(info, call)
+			return sameVar(info, recv, v)
+		})
+	})
+	if ok {
+		return true, ""
+	}
+	if def := g.LocalDef(v); def != nil {
+		if ok2, why2, is := viaHelper(def); is {
+			return ok2, why2
+		}
+	}
+	return false, why
 }
